@@ -131,3 +131,19 @@ Example pinned_crash : expand_pinned 0 0 1 = PCrash.
 Proof. vm_compute. reflexivity. Qed.
 Example pinned_rejects_reachable : expand_pinned 0 0 128 = PErr 127 /\ reachable 0 128.
 Proof. split; [vm_compute; reflexivity|]. exists 126. split; [discriminate|vm_compute; reflexivity]. Qed.
+
+(* the prediction the runner's own path is compared with (kind c19.wiring): exact size, accepted
+   iff the offset is <= 0; no prediction only where the size is unreachable *)
+Theorem wiring_verdict : forall limit off r,
+  wiring_one limit off = Some r -> r = L [I limit; I (limit + off); sx_bool (off <=? 0)].
+Proof. exact wiring_one_proof. Qed.
+Print Assumptions wiring_verdict.
+
+Theorem wiring_defined : forall limit off,
+  0 <= limit + off <= max_uint32 -> wiring_one limit off = None -> ~ reachable 0 (limit + off).
+Proof. exact wiring_none_proof. Qed.
+Print Assumptions wiring_defined.
+
+Example ex_wiring : wiring_all 204800 [-1; 0; 1] =
+  Some [L [I 204800; I 204799; I 1]; L [I 204800; I 204800; I 1]; L [I 204800; I 204801; I 0]].
+Proof. vm_compute. reflexivity. Qed.
